@@ -44,18 +44,46 @@ def validate_pair(prop_id, a, b, tables, K, strings_list=(), nullable=(), label=
       except Unsupported as e:
         r['status'] = 'not_encodable'
         r['why'] = '%s: %s' % (s.label or s.pred, e)
+        # outside the model: at least real SQLite must accept what the compiler emitted
+        try:
+          hdr, _rows = s.run_real(schema, {})
+          if hdr and str(hdr[0]).startswith('<missing table'):
+            raise RuntimeError('table of the grounded predicate was not written: %s' % hdr[0])
+        except AttributeError:
+          try:
+            e1.run_real(real.compile_pred(s.text, s.pred).statements(), schema, {})
+          except real.DIAGNOSTICS:
+            pass
+          except Exception as e2:  # noqa: BLE001
+            r['status'] = 'violation'
+            r['kind'] = 'sqlite_error'
+            r['replay'] = {'property': prop_id, 'label': label, 'program_a': a.text, 'pred_a': a.pred,
+                           'program_b': b.text, 'pred_b': b.pred, 'db': {}, 'schema': schema,
+                           'failing_side': s.label, 'error': '%s: %s' % (type(e2).__name__, e2)}
+        except real.DIAGNOSTICS:
+          pass
+        except Exception as e2:  # noqa: BLE001
+          r['status'] = 'violation'
+          r['kind'] = 'sqlite_error'
+          r['replay'] = {'property': prop_id, 'label': label, 'program_a': a.text, 'pred_a': a.pred,
+                         'program_b': b.text, 'pred_b': b.pred, 'db': {}, 'schema': schema,
+                         'failing_side': s.label, 'error': '%s: %s' % (type(e2).__name__, e2)}
         return r
       except real.DIAGNOSTICS as e:
         r['status'] = 'rejected'
         r['rejected_side'] = 'a' if s is a else 'b'
         r['why'] = '%s: %s: %s' % (s.label or s.pred, type(e).__name__, str(e)[:300])
         return r
-      except AssertionError:
-        raise
-      except Exception:  # noqa: BLE001
-        r['status'] = 'compiler_crash'
-        r['rejected_side'] = 'a' if s is a else 'b'
-        r['why'] = traceback.format_exc()[-1200:]
+      except Exception as e:  # noqa: BLE001
+        if type(e).__name__ != 'WriteByPrint':
+          r['status'] = 'compiler_crash'
+          r['rejected_side'] = 'a' if s is a else 'b'
+          r['why'] = traceback.format_exc()[-1200:]
+          return r
+        r['status'] = 'violation'
+        r['kind'] = 'write_by_print'
+        r['replay'] = {'property': prop_id, 'label': label, 'program_a': a.text, 'pred_a': a.pred,
+                       'program_b': b.text, 'pred_b': b.pred, 'db': {}, 'schema': schema, 'error': str(e)}
         return r
     sa, sb = sides
     r['slots'] = (len(sa.rel.slots), len(sb.rel.slots))
